@@ -394,7 +394,8 @@ def rule_min_one_frame(ctx):
     # by role: onset frames = round(time_div * onset).astype(int); offset frames = <onset frames> + <duration frames>
     defs = local_defs(f)
     offs = [k for k, vs in defs.items() for v in vs if isinstance(v, ast.BinOp) and isinstance(v.op, ast.Add) and isinstance(v.left, ast.Name)
-            and isinstance(v.right, ast.Name) and any("clip" in norm(d) for d in defs.get(v.right.id, []))]
+            and ((isinstance(v.right, ast.Name) and any("clip" in norm(d) for d in defs.get(v.right.id, [])))
+                 or (isinstance(v.right, ast.Call) and "clip" in norm(v.right.func)))]
     ctx.require(len(offs) == 1, rule, f.qname, "offset-frame variable not found")
     off = offs[0]
     on = next(v.left.id for v in defs[off] if isinstance(v, ast.BinOp) and isinstance(v.op, ast.Add))
